@@ -17,8 +17,27 @@ import (
 	"unsafe"
 
 	"github.com/iotaledger/iota.go/consts"
+	iotagocurl "github.com/iotaledger/iota.go/curl"
 	"github.com/iotaledger/iota.go/trinary"
 )
+
+// envScramble: the environment writes to exported, mutable package-level state of the module's dependencies (the rotation
+// table of the reference implementation - its own permutation works from a private copy made at start-up).  The sponge
+// and the permutations of this package are functions of their arguments and their own history only.
+var envSaved *[len(iotagocurl.Indices)]int
+
+func envScramble(on bool) {
+	if on && envSaved == nil {
+		keep := iotagocurl.Indices
+		envSaved = &keep
+		for i := range iotagocurl.Indices {
+			iotagocurl.Indices[i] = keep[len(keep)-1-i]
+		}
+	} else if !on && envSaved != nil {
+		iotagocurl.Indices = *envSaved
+		envSaved = nil
+	}
+}
 
 // ---------------------------------------------------------------- C20
 
@@ -123,6 +142,10 @@ func runTransform(in M) M {
 	b := buffers(atEnd)
 	lto, hto, lfrom, hfrom := b[0], b[1], b[2], b[3]
 	fillState(lfrom, hfrom, seed, pattern)
+	if in["env"] == true {
+		envScramble(true)
+		defer envScramble(false)
+	}
 	if pattern == "leftover" && haveLeft { // the state the previous call left in its source buffers is the next input
 		*lfrom, *hfrom = leftL, leftH
 	}
@@ -260,6 +283,9 @@ func runSponge(op string, in M) M {
 		}
 		curls = map[int]*Curl{}
 		return M{"blocks": out}
+	case "curl.env":
+		p := vCatch(func() { envScramble(in["scramble"] == true) })
+		return M{"panic": p}
 	case "curl.new":
 		var c *Curl
 		p := vCatch(func() { c = NewCurlP81() })
@@ -455,6 +481,10 @@ func genTransform(do func(string, M)) {
 		}
 		do("curl.transform", M{"seed": r.Intn(1 << 30), "pattern": pat, "guard": []string{"end", "start"}[k%2], "audit": audit})
 	}
+	// the same while the environment has changed mutable state of the dependencies (one audited lane each)
+	for k := 0; k < 2; k++ {
+		do("curl.transform", M{"seed": r.Intn(1 << 30), "pattern": []string{"valid", "any"}[k], "guard": []string{"end", "start"}[k], "audit": []int{[]int{0, 63}[k]}, "env": true})
+	}
 }
 
 func genSponge(do func(string, M)) {
@@ -525,6 +555,14 @@ func genSponge(do func(string, M)) {
 			do("curl.absorb", M{"id": 6, "lanes": lanes, "nblocks": 2, "bad": ""})
 			do("curl.squeeze", M{"id": 6, "nlanes": bs, "nblocks": 1, "bad": "", "audit": au})
 			do("curl.squeeze", M{"id": 6, "nlanes": bs, "nblocks": 1, "bad": "", "audit": []int{}})
+		}
+		// a history while the environment has changed mutable state of the dependencies, anchored by TLC's Curl-P-81
+		if tr < 2 {
+			do("curl.env", M{"scramble": true})
+			do("curl.new", M{"id": 5})
+			do("curl.absorb", M{"id": 5, "lanes": [][]int{{1 + r.Intn(nkeys)}, {1 + r.Intn(nkeys)}}, "nblocks": 1, "bad": ""})
+			do("curl.squeeze", M{"id": 5, "nlanes": 2, "nblocks": 1, "bad": "", "audit": []int{tr}})
+			do("curl.env", M{"scramble": false})
 		}
 		// a fresh instance that is squeezed before anything was absorbed, reset, and used again
 		do("curl.new", M{"id": 7})
